@@ -94,8 +94,16 @@ def run(tier: str, seed: int, rep: Report, model: Model) -> dict:
                     c = p[0]
             cases.append(c)
             exact.append(False)
+    # directed: an axis with two demanded values (a named expression whose name is already bound), every single resize
+    nreb = 0
+    for base in GC.rebound_cases(rnd, 25 if tier == "quick" else 250):
+        for c in GC.all_resizes(base):
+            cases.append(c)
+            exact.append(True)
+            nreb += 1
+    rep.streams["rebound_named_expression_resizes"] = nreb
     rep.streams["corpus"] = len(corpus())
-    rep.streams["one_fault"] = sum(exact) - len(corpus())
+    rep.streams["one_fault"] = sum(exact) - len(corpus()) - nreb
     rep.streams["multi_fault"] = len(exact) - sum(exact)
     worker = ImplWorker("harness.ctxrun")
     try:
